@@ -202,7 +202,8 @@ def run(rep, model, rule='R3', kinds=None, floor=80):
             except (Undecided, Fork, PyRaise, NotAnElement):
                 continue
         try:
-            r = evaluate(model, Hcls, Icls, b, entries)
+            from ..core import with_budget
+            r = with_budget(lambda: evaluate(model, Hcls, Icls, b, entries))
         except (Undecided, Fork) as e:
             rep.undecided(rule, cons, str(e), rel)
             continue
